@@ -308,8 +308,9 @@ CHECKS["C06"] = {
                     "foreign key types with a valid proof are recorded, not asserted (the statement only forbids reporting unproven keys)"],
     "units": [
         {"pkg": "internal/handshake", "run": "^TestVerif_C06_", Q: {"timeout": 900}, T: {"timeout": 3400, "shards": 12}},
+        {"pkg": ".", "run": "^TestVerif_C06_", Q: {"timeout": 900}, T: {"timeout": 3400, "shards": 8}},
     ],
-    "mandatory_labels": {"all": ["honest", "wrong-target", "attack/only-proof-stands", "tamper/bit-flip", "tamper/truncate", "foreign-key"]},
+    "mandatory_labels": {"all": ["honest", "wrong-target", "attack/only-proof-stands", "tamper/bit-flip", "tamper/truncate", "foreign-key", "manager/honest", "manager/claims-victim-in-contact"]},
 }
 
 CHECKS["C19"] = {
